@@ -271,6 +271,43 @@ impl Monitor for C10 {
         k -= self.n_single;
         if k < self.n_random {
             let mut r = Rng::derive(self.seed, 0x1001, k, 0);
+            if k % 8 == 0 {
+                // very long runs of one default operation (a correct prediction, a zero correction) of lengths on
+                // and around 2^15, 2^16 and beyond, closed by a non-default operation, a value, or nothing
+                let lens = [32767usize, 32768, 32769, 65535, 65536, 65537, 70001, 131073, 40000, 16384];
+                let n = lens[((k / 8) % lens.len() as u64) as usize];
+                let c = r.below(7) as u8;
+                let cc = r.below(10) as u8;
+                let unit = match (k / 8 / lens.len() as u64) % 3 {
+                    0 => Op::Misprediction(c, false),
+                    1 => Op::Correction(cc, 0),
+                    _ => Op::Misprediction(c, false),
+                };
+                let mut ops = vec![unit; n];
+                if (k / 8 / lens.len() as u64) % 3 == 2 {
+                    // alternate the two kinds of default
+                    for (i, o) in ops.iter_mut().enumerate() {
+                        if i % 2 == 1 {
+                            *o = Op::Correction(cc, 0);
+                        }
+                    }
+                }
+                match r.below(4) {
+                    0 => ops.push(Op::Correction(cc, 1 + r.below(300) as u32)),
+                    1 => ops.push(Op::Misprediction(c, true)),
+                    2 => ops.push(Op::Value(r.below(256) as u16, 8)),
+                    _ => {}
+                }
+                for _ in 0..r.usize_below(5) {
+                    ops.push(Op::Misprediction(r.below(7) as u8, r.chance(1, 2)));
+                }
+                ctx.count("very_long_default_runs");
+                let bad = Self::judge(&ops, &format!("default run of {} operations", n), ctx, false, false);
+                if !bad {
+                    ctx.nontrivial(hash64(&ops_bytes(&ops)));
+                }
+                return;
+            }
             for _ in 0..40 {
                 let (label, ops) = random_sequence(&mut r);
                 let bad = Self::judge(&ops, &label, ctx, false, false);
